@@ -610,7 +610,17 @@ def _clone(self, args):
     return a[1] if a[0] == "ref" else a       # Clone of a folded (Copy-like) value is the value
 
 
+def _fn_call(self, args):
+    tup = args[1]
+    if not (tup[0] == "agg" and tup[1] == "tuple"):
+        raise Unknown("Fn::call with a non-tuple argument pack")
+    return _call_closure(self, args[0], list(tup[4]))
+
+
 STD_MODELS = {
+    "std::ops::FnMut::call_mut": _fn_call,
+    "std::ops::FnOnce::call_once": _fn_call,
+    "std::ops::Fn::call": _fn_call,
     "core::slice::<impl [T]>::partition_point": _partition_point,
     "<std::option::Option<T> as std::clone::Clone>::clone": _clone,
     "std::clone::Clone::clone": _clone,
